@@ -3,6 +3,7 @@ import DirectVerif.Model.MaskBudget
 import DirectVerif.Model.C07Magic
 import DirectVerif.Model.C07Bisect
 import DirectVerif.Model.C07State
+import DirectVerif.Model.C07Circus
 import DirectVerif.Lemmas.C07State
 import DirectVerif.Props.C07
 import Mathlib.Tactic.Ring
@@ -130,6 +131,19 @@ theorem code_bisection_iv_post_returned (mid : ℚ → ℚ → ℚ) (R tol : ℚ
     (a : ℚ) (n : Nat) (s : ℚ) (hr : poissonIv mid R tol accs lo hi (postOfTable poissonPost effect) = .returned a n s) :
     |a - R| < tol :=
   DirectVerif.C07.bisection_iv_post_returned mid R tol accs lo hi poissonPost poisson_post_ok effect a n s hr
+
+/-! ### CIRCUS arithmetic -/
+
+theorem circus_M_radial_eq (prod a maxd mind : ℚ) : circus_M_radial prod a maxd mind = circusM prod a maxd mind := by
+  unfold circus_M_radial circusM circusDenom; rfl
+
+theorem circus_M_spiral_eq (prod a maxd mind : ℚ) : circus_M_spiral prod a maxd mind = circusM prod a maxd mind := by
+  unfold circus_M_spiral circusM circusDenom; rfl
+
+/-- with a centre disc the patterns are drawn for the same ACS-adjusted acceleration as the equispaced lines, over
+`rows·cols` cells -/
+theorem circus_adjusted_accel_eq (rows cols R L : ℚ) : circus_adjusted_accel rows cols R L = adjAccel (rows * cols) R L := by
+  unfold circus_adjusted_accel adjAccel; ring
 
 /-! ### nothing is carried from one call to the next -/
 
